@@ -158,14 +158,14 @@ pub fn run(ctx: &Ctx) -> CheckResult {
             } else {
                 Budgets::BoundariesPlus(32)
             };
-            jobs.push(FaultJob { base: bases[i].clone(), step: 0, space: FaultSpace { read_side: false, write_side: true, budgets, seed: rng::mix(ctx.seed, &bases[i].name, 1) }, noise: k == 0 || !quick, max_variants: 0 });
+            jobs.push(FaultJob { base: bases[i].clone(), step: 0, space: FaultSpace { read_side: false, write_side: true, meta_side: false, budgets, seed: rng::mix(ctx.seed, &bases[i].name, 1) }, noise: k == 0 || !quick, max_variants: 0 });
         }
     }
     // always include the extra items (mission / ending / big) in quick as well
     if quick {
         for (i, c) in bases.iter().enumerate() {
             if compiles[i] && c.name.contains("extra/") && !jobs.iter().any(|j| j.base.name == c.name) {
-                jobs.push(FaultJob { base: bases[i].clone(), step: 0, space: FaultSpace { read_side: false, write_side: true, budgets: Budgets::Boundaries, seed: ctx.seed }, noise: false, max_variants: 0 });
+                jobs.push(FaultJob { base: bases[i].clone(), step: 0, space: FaultSpace { read_side: false, write_side: true, meta_side: false, budgets: Budgets::Boundaries, seed: ctx.seed }, noise: false, max_variants: 0 });
             }
         }
     }
